@@ -8,4 +8,3 @@ import SpoxModel.Props.C01
 #print axioms C01.later_nodes_irrelevant
 #print axioms C01.creation_order_irrelevant
 #print axioms C01.written_differently_same_values
-#print axioms C01.build_valid_partial
